@@ -44,6 +44,7 @@ type Profile struct {
 	BareControllers   bool // controllers without @Route / @Tag / any doc comment at all
 	RuntimeValidators bool // only validators whose run-time semantics the router labs model
 	HostileNames      bool // parameter names that stress identifier concatenation in the templates (C09)
+	CompileHostile    bool // value shapes the acceptance survey found to break compilation (C09 only)
 }
 
 var verbs = []string{"GET", "POST", "PUT", "DELETE", "PATCH"}
@@ -56,11 +57,14 @@ var allPrims = append(append([]string{"string", "bool", "float32", "float64"}, i
 var descrPool = []string{"Returns the thing", "Creates a new entry", "The identifier", "Übergröße: ünïcödé text", "説明 in Japanese", "With (parentheses) and {braces}", "Multi word description, with commas", "Ends with colon:"}
 
 type gen struct {
-	curPkg string // package of the controller being generated
-	r      *rand.Rand
-	prof   Profile
-	p      *Project
-	used   map[string]bool
+	hostileKind  string // the single compile-hostile shape this project may carry ("" none)
+	hostileUsed  bool
+	hostileNames bool
+	curPkg       string // package of the controller being generated
+	r            *rand.Rand
+	prof         Profile
+	p            *Project
+	used         map[string]bool
 }
 
 func (g *gen) chance(p float64) bool   { return g.r.Float64() < p }
@@ -101,6 +105,13 @@ func Gen(r *rand.Rand, prof Profile, name, modRoot string) *Project {
 		if g.chance(0.5) || prof.SameNameCtls {
 			p.Pkgs = append(p.Pkgs, Pkg{Key: "ctl2", Dir: "api/ctl2", Name: "ctl2"})
 		}
+	}
+	if prof.HostileNames && g.chance(0.35) {
+		g.hostileNames = true
+		p.SetFeature("hostile-parameter-names")
+	}
+	if prof.CompileHostile && g.chance(0.45) {
+		g.hostileKind = g.pick([]string{"map-body", "map-result", "time-result", "ptr-slice-body", "ptr-slice-result"})
 	}
 	g.genConfig()
 	g.genTypes()
@@ -702,6 +713,16 @@ func (g *gen) paramValidator(t T) string {
 
 func (g *gen) bodyType() (T, bool) {
 	structs := g.structsFor(g.curPkg, -1)
+	if !g.hostileUsed && len(structs) > 0 && (g.hostileKind == "map-body" || g.hostileKind == "ptr-slice-body") {
+		g.hostileUsed = true
+		s := structs[g.r.Intn(len(structs))]
+		if g.hostileKind == "map-body" {
+			g.p.SetFeature("map-typed-body-or-result")
+			return MapOf(Named(s.Pkg, s.Name)), true
+		}
+		g.p.SetFeature("slice-of-pointers")
+		return Slice(Ptr(Named(s.Pkg, s.Name))), true
+	}
 	if len(structs) == 0 {
 		return Slice(Prim("string")), true
 	}
@@ -723,6 +744,24 @@ func (g *gen) retType() *T {
 	structs, enums, aliases := g.structsFor(g.curPkg, -1), g.enumsFor(g.curPkg), g.aliasesFor(g.curPkg)
 	k := g.r.Intn(100)
 	var t T
+	if !g.hostileUsed && (g.hostileKind == "map-result" || g.hostileKind == "time-result" || g.hostileKind == "ptr-slice-result") {
+		g.hostileUsed = true
+		switch g.hostileKind {
+		case "map-result":
+			g.p.SetFeature("map-typed-body-or-result")
+			t = MapOf(Prim("string"))
+			if len(structs) > 0 {
+				t = MapOf(Named(structs[0].Pkg, structs[0].Name))
+			}
+		case "time-result":
+			g.p.SetFeature("time-typed-result")
+			t = T{K: "time"}
+		default:
+			g.p.SetFeature("slice-of-pointers")
+			t = Slice(Ptr(Prim("int")))
+		}
+		return &t
+	}
 	switch {
 	case k < 20:
 		return nil
@@ -804,7 +843,7 @@ func (g *gen) genMethod(c *Controller, idx int) Method {
 	newName := func() string {
 		for tries := 0; tries < 50; tries++ {
 			n := g.pick(paramNames)
-			if prof.HostileNames && g.chance(0.5) {
+			if g.hostileNames && g.chance(0.5) {
 				n = g.pick(hostileParamNames)
 			}
 			if !usedNames[n] {
